@@ -504,5 +504,5 @@ func TestC12(t *testing.T) {
 	s := newSuite(t, "C12",
 		"1..4 requests (bodies 0..70000) through RoundTrip with MaxResponseTime 250 ms to a scripted TLS server whose well-formed response stream (split header blocks, DATA chunked, shared HPACK entries) is recorded and then: delivered up to any octet (incl. inside a frame) or entirely; mutated frame-wise (duplicate, delete, swap, bit flip, lying length, type/flags/stream-id change); or extended with a scripted adversary at any frame position (RST_STREAM, GOAWAY, oversized frame, HPACK garbage, unsolicited PUSH_PROMISE, DATA on an idle stream, WINDOW_UPDATE overflow, invalid SETTINGS, unknown frame type, 300 PINGs); followed by silence, close or reset; or with the client's own writes failing from any octet; or with Client.Close() fired before the answers, after them, or concurrently with further RoundTrips. Oracle: every RoundTrip returns exactly once within MaxResponseTime plus a margin (a miss is reported with the client's goroutine dump); a success carries exactly the complete well-formed response an independent parser (x/net Framer + strict reference HPACK) finds on that stream in the delivered octets; nothing succeeds after Close without an answer; a follow-up batch on a fresh connection gets its own responses; after Close no loop of the client remains; the process survives (crash journal). Non-trivial = cut inside a frame, a mutation, an adversary, or Close racing requests; distinct by case hash.")
 	defer s.finish()
-	runLane(s, Lane[c12Case]{Name: "faults", Journal: true, Quick: 500, Thor: 80000, Gen: c12Gen, Run: c12Run})
+	runLane(s, Lane[c12Case]{Name: "faults", Journal: true, Quick: 500, Thor: 30000, Gen: c12Gen, Run: c12Run})
 }
